@@ -134,6 +134,23 @@ let handle_corr (rest : sexp list) : (string * string) list =
          let mfr = List.map (fun f -> if f.fr_torn then torn := true; string_of_bytes (frame_bytes f)) mframes in
          if not !torn && mfr <> gfr then
            add "mismatch" (Printf.sprintf "corr:C10/frames model=[%s] impl=[%s]" (show_frames mfr) (show_frames gfr)));
+    (* on data that needs no completion the straight-line renderer of Spec.v (the one the
+       reconstruction theorems are about) must give the same frames, and the client-side merge of
+       its frames must give the completion of the erased plan *)
+    let clean = wf && clean_b r j && strict_clean r j [] in
+    (if clean && status = "ok" then begin
+       let order = List.filter_map (function ARender g -> find_desc descs g | _ -> None) trace in
+       let cfr = List.map (fun f -> string_of_bytes (frame_bytes f)) (c_stream descs r j order) in
+       if cfr <> gfr then
+         add "mismatch" (Printf.sprintf "corr:C10/clean clean=[%s] impl=[%s]" (show_frames cfr) (show_frames gfr));
+       match client_result descs r j order, complete_root (fun _ _ -> false) (erase r) j with
+       | Some merged, (Some expected, []) ->
+         if not (jequiv_b merged expected) then
+           add "mismatch" (Printf.sprintf "corr:C10/clean-merge merged=%s expected=%s"
+                             (quote_string (string_of_bytes (marshal merged))) (quote_string (string_of_bytes (marshal expected))))
+       | None, _ -> add "mismatch" "corr:C10/clean-merge the merge of the clean frames fails (path addresses no object)"
+       | _ -> ()
+     end);
     (* the specification on the implementation's own frames *)
     let (s, bad) = sums_of sums in
     let fails = go_fails go in
@@ -154,7 +171,8 @@ let handle_corr (rest : sexp list) : (string * string) list =
        | _ -> ())
     end;
     let ndefer = List.length descs in
-    let detail = (if ndefer >= 2 then "nt" else "tr") ^ (if wf then "" else " malformed") ^ (if !torn then " torn" else "") in
+    let detail = (if ndefer >= 2 then "nt" else "tr") ^ (if wf then "" else " malformed") ^ (if !torn then " torn" else "")
+                 ^ (if clean then " clean" else "") in
     if !res = [] then [("ok", detail)] else List.rev !res
   | _ -> [("error", "unrecognised c10corr case")]
 
